@@ -1,6 +1,7 @@
 import PgBifrost.Proofs.LedgerSimple.Drain
 import PgBifrost.Proofs.LedgerRefine
 import PgBifrost.Proofs.LedgerSpecSound
+import PgBifrost.Proofs.ClientC02
 /-!
 # C02 — the ledger never wedges (property theorems)
 
@@ -100,5 +101,62 @@ theorem drains_nonempty_needed :
    (PgBifrost.Spec.Ledger.drainHyps_sound (by decide)).1,
    (PgBifrost.Spec.Ledger.drainHyps_sound (by decide)).2,
    by decide, ⟨[], []⟩, by decide⟩
+
+
+/-! ## Client layer: the synthetic COMMIT of error recovery (`recoverFromErrorResponse`)
+
+`c02Recovery h`: at every `ErrorResponse` of the history `h`, if a delivery is open downstream
+(BEGIN forwarded, no COMMIT forwarded since) exactly one COMMIT with that delivery's transaction id
+and key and a non-zero LSN is forwarded, and nothing is forwarded when no delivery is open.
+Verdicts: `zeroLsn` = F2(a), `notOpen` = F2(b), `wrongKey` / `unclosed` = F2(c). -/
+section client
+open PgBifrost.Client PgBifrost.Spec.Client PgBifrost.ClientProofs
+
+/-- FULL statement, for the client with the planned F2 patch plus the one-flag change for (c)
+(model variant `.fixedC`, validated against a scratch copy of the repository carrying both):
+every recovery closes exactly the open delivery. Hypothesis: the position announced by the first
+keepalive is not 0 (it is the stamp of last resort). -/
+theorem recovery_commit_closes_open_delivery (evs : List Ev)
+    (hinit : ∀ e ∈ evs.head?, ∀ w, initOf e = some w → 0 < w) :
+    c02Recovery (hist .fixedC evs) = true :=
+  rec_hist evs hinit
+
+/-- the planned F2 patch as it is (variant `.fixed`): never a zero LSN, never a COMMIT for a
+closed delivery or under a foreign key; the only remaining deviation is an open delivery left
+without COMMIT (F2c, see the witness below) -/
+theorem recovery_fixed_partial (evs : List Ev)
+    (hinit : ∀ e ∈ evs.head?, ∀ w, initOf e = some w → 0 < w) :
+    okOrUnclosed (c02Verdicts (hist .fixed evs)) = true :=
+  rec_fixed_hist evs hinit
+
+def f2a : List Ev := [⟨[], .keepalive false 100 0, false⟩, ⟨[], .data 110 (.begin "7") 1000 [], false⟩,
+  ⟨[], .data 120 .change 0 [], false⟩, ⟨[], .errorResponse 500, false⟩]
+def f2b : List Ev := [⟨[], .keepalive false 100 0, false⟩, ⟨[], .data 110 (.begin "7") 1000 [], false⟩,
+  ⟨[], .data 130 (.commit "7") 0 [], false⟩, ⟨[], .errorResponse 500, false⟩]
+def f2c : List Ev := [⟨[], .keepalive false 100 0, false⟩, ⟨[], .data 110 (.begin "6") 1000 [], false⟩,
+  ⟨[], .data 115 (.commit "6") 0 [], false⟩, ⟨[], .data 120 (.begin "7") 2000 [], false⟩,
+  ⟨[], .data 125 .change 0 [], false⟩, ⟨[], .closedErr, false⟩,
+  ⟨[], .data 120 (.begin "7") 3000 [], false⟩, ⟨[], .errorResponse 500, false⟩]
+
+/-- F2(a) on today's code: error response before any COMMIT was received → LSN 0 -/
+theorem recovery_today_witness_a : c02Verdicts (hist .today f2a) = [.zeroLsn] := by decide
+/-- F2(b) on today's code: error response between transactions → a second COMMIT for the closed key -/
+theorem recovery_today_witness_b : c02Verdicts (hist .today f2b) = [.notOpen] := by decide
+/-- F2(c) on today's code: after a cut whose redelivered BEGIN was dropped the COMMIT names the
+dropped BEGIN's key, which no message carries -/
+theorem recovery_today_witness_c : c02Verdicts (hist .today f2c) = [.wrongKey] := by decide
+/-- F2(c) survives the planned patch: nothing is emitted, the interrupted delivery stays open -/
+theorem recovery_fixed_witness_c : c02Verdicts (hist .fixed f2c) = [.unclosed] := by decide
+/-- starting position 0: the stamp of last resort is 0 as well (hypothesis `hinit` is needed) -/
+theorem recovery_fixedC_witness_init0 :
+    c02Verdicts (hist .fixedC (⟨[], .keepalive false 0 0, false⟩ :: f2a.tail)) = [.zeroLsn] := by decide
+
+example : c02Verdicts (hist .fixed f2a) = [.ok] ∧ c02Verdicts (hist .fixed f2b) = [.ok] ∧
+    c02Verdicts (hist .fixedC f2a) = [.ok] ∧ c02Verdicts (hist .fixedC f2b) = [.ok] ∧
+    c02Verdicts (hist .fixedC f2c) = [.ok] := by decide
+example : fwdsOf (acts (hist .fixedC f2c)) = [(.begin, "6", some ("6", 1000), 110),
+    (.commit, "6", some ("6", 1000), 115), (.begin, "7", some ("7", 2000), 120),
+    (.change, "7", some ("7", 2000), 125), (.commit, "7", some ("7", 2000), 115)] := by decide
+end client
 
 end PgBifrost.Props.C02
